@@ -28,9 +28,10 @@
 EXTENDS Naturals, Sequences, FiniteSets, TLC
 
 CONSTANT Variant   \* "fixed" : what the property demands at the three places where the code panics
-                   \* "code"  : the code as it is: RustTarget::from_str("1.0-nightly") overflows (debug
-                   \*           build: `minor -= 1` on 0); the mode-bit test lets a header through that
-                   \*           this user may not read; BindgenContext::new `expect`s a translation unit
+                   \* "code"  : the code as it is: the mode-bit test lets a header through that this user
+                   \*           may not read; BindgenContext::new `expect`s a translation unit
+                   \* "nightly0Panics" : the code before 5c8f7ec8 (RustTarget::from_str("1.0-nightly")
+                   \*           overflowed `minor -= 1` in debug builds); kept as a sensitivity variant
                    \* "noEditionCheck" | "noPathCheck" | "swallowCodegen" : sensitivity variants
 
 FlagsV == {"ok", "invalid", "nightly0"}
@@ -59,7 +60,7 @@ Allowed(f) == IF Faults(f) = {} THEN {"ok"} ELSE Faults(f)
 (* L2 as a function: the first check that fires, in the code's order        *)
 Outcome(f) ==
   IF f.flags = "invalid" THEN "flags_err"
-  ELSE IF f.flags = "nightly0" THEN (IF Variant = "code" THEN "panic" ELSE "flags_err")
+  ELSE IF f.flags = "nightly0" THEN (IF Variant = "nightly0Panics" THEN "panic" ELSE "flags_err")
   ELSE IF f.edition = "unavailable" /\ Variant # "noEditionCheck" THEN "err:UnsupportedEdition"
   ELSE IF f.path \notin {"ok", "denied"} /\ Variant # "noPathCheck" THEN PathErr(f.path)
   ELSE IF f.path = "denied" /\ Variant # "code" THEN PathErr(f.path)
